@@ -19,7 +19,9 @@ Record ws_cfg := mkCfg {
   c_maxframe : N;        (* ws->maxframe, 0 = unlimited *)
   c_recvmax : N;         (* ws->recvmax, 0 = unlimited *)
   c_recv_text : bool;    (* ws->recv_text *)
-  c_allocmax : N         (* nni_alloc fails above this size *)
+  c_allocmax : N;        (* nni_alloc fails above this size *)
+  c_ctl_counts : bool    (* the running recvmax test also counts control frames (ping/pong/close):
+                            the text pinned at e917035; false = only data frames are counted *)
 }.
 
 (* What ws_handler / ws_dialer_dial copy from the listener / dialer into the
@@ -101,14 +103,19 @@ Definition ws_frame_cb (cfg : ws_cfg) (s : ws_state) (op : N) (final : bool) (pa
     ws_fail s WS_CLOSE_NORMAL_CLOSE
   else ws_fail s WS_CLOSE_PROTOCOL_ERR.
 
+(* "For message mode, also check to make sure that the overall length of the
+   message has not exceeded our recvmax": the frames queued plus this one *)
+Definition recvmax_exceeded (cfg : ws_cfg) (s : ws_state) (op len : N) : bool :=
+  negb (c_isstream cfg) && (0 <? c_recvmax cfg) && (c_ctl_counts cfg || (N.land op 8 =? 0)) &&
+  (c_recvmax cfg <? len + sum_len (w_rxq s)).
+
 (* the checks ws_read_cb makes once the header is complete, in code order *)
 Definition ws_header_done (cfg : ws_cfg) (s : ws_state) (h0 h1 : byte) (ext : list byte)
   : ws_state * list ws_event :=
   let '(len, minimal) := hd_len h1 ext in
   if negb minimal then ws_fail s WS_CLOSE_PROTOCOL_ERR
   else if (c_maxframe cfg <? len) && (0 <? c_maxframe cfg) then ws_fail s WS_CLOSE_TOO_BIG
-  else if negb (c_isstream cfg) && (0 <? c_recvmax cfg) && (c_recvmax cfg <? len + sum_len (w_rxq s))
-       then ws_fail s WS_CLOSE_TOO_BIG
+  else if recvmax_exceeded cfg s (hd_op h0) len then ws_fail s WS_CLOSE_TOO_BIG
   else if hd_masked h1 && negb (c_server cfg) then ws_fail s WS_CLOSE_PROTOCOL_ERR
   else if negb (hd_masked h1) && c_server cfg then ws_fail s WS_CLOSE_PROTOCOL_ERR
   else
